@@ -110,6 +110,12 @@ Proof. intros. unfold sub. rewrite firstn_length, skipn_length. lia. Qed.
 Lemma sub_length_le : forall (b : list bool) off w, (length (sub b off w) <= w)%nat.
 Proof. intros. unfold sub. rewrite firstn_length. lia. Qed.
 
+Lemma skipn_skipn_add : forall {A} y x (l : list A), skipn x (skipn y l) = skipn (y + x) l.
+Proof.
+  induction y as [|y IH]; intros x l; [reflexivity|].
+  destruct l as [|a r]; [rewrite !skipn_nil; reflexivity|]. cbn [skipn Nat.add]. apply IH.
+Qed.
+
 Lemma skipn_cons_nth : forall (b : list bool) off d, (off < length b)%nat ->
   skipn off b = nth off b d :: skipn (S off) b.
 Proof.
